@@ -231,7 +231,9 @@ def main(tier):
         for path, names in doc.get("enums", {}).items():
             variant_sets.setdefault(path, set()).add(tuple(names))
     cfg_enums = {p_ for p_, vs in variant_sets.items() if len(vs) > 1}
-    run.ob(any(p_.endswith("OperatorCategory") for p_ in cfg_enums), "cfg-enums", "C17 the enums whose variants depend on the feature set are known", "adts", str(sorted(cfg_enums)), sample={"cfg_dependent_enums": sorted(cfg_enums)})
+    from ..tables import catinfo as _ci
+    _cat = _ci(Facts(extract.load()))
+    run.ob(any(p_ == (_cat["path"] if _cat else "?") for p_ in cfg_enums), "cfg-enums", "C17 the enums whose variants depend on the feature set are known", "adts", str(sorted(cfg_enums)), sample={"cfg_dependent_enums": sorted(cfg_enums)})
     seen_c = set()
     for fs, doc, err in res:
         if doc is None:
